@@ -100,6 +100,9 @@ type Cluster struct {
 	T          *tracer.Tracer
 	DSEVersion string
 	MaxVersion primitive.ProtocolVersion // 0 = accept everything the library knows
+	// BigEvery > 0: every BigEvery-th plain OK answer carries a blob of about 20 KiB (atomic).
+	BigEvery int64
+	okCount  int64
 	// EvictAfter > 0: a node forgets a prepared statement after this many executions (atomic).
 	EvictAfter int64
 	// PeersDelay delays every answer to a read of system.peers (set and read atomically).
@@ -808,6 +811,22 @@ func BuildMessage(a *Attempt, out Outcome) message.Message {
 	recv, block := out.Received, out.BlockFor
 	switch out.Kind {
 	case OK:
+		if k := atomic.LoadInt64(&a.Node.C.BigEvery); k > 0 && atomic.AddInt64(&a.Node.C.okCount, 1)%k == 0 {
+			// a result of about 20 KiB (beyond what the proxy coalesces into one write), filled with bytes that tell
+			// where in which answer they belong
+			blob := make([]byte, 20000+int(atomic.LoadInt64(&a.Node.C.okCount)%977))
+			for i := range blob {
+				blob[i] = byte('a' + (i+len(a.Token))%23)
+			}
+			copy(blob, a.Token)
+			return &message.RowsResult{
+				Metadata: &message.RowsMetadata{ColumnCount: 3, Columns: []*message.ColumnMetadata{
+					{Keyspace: "ks", Table: "t", Name: "tok", Type: datatype.Varchar},
+					{Keyspace: "ks", Table: "t", Name: "node", Type: datatype.Varchar},
+					{Keyspace: "ks", Table: "t", Name: "pad", Type: datatype.Blob}}},
+				Data: message.RowSet{{varchar(a.Token), varchar(a.Node.IP), blob}},
+			}
+		}
 		return &message.RowsResult{
 			Metadata: &message.RowsMetadata{ColumnCount: 2, Columns: []*message.ColumnMetadata{
 				{Keyspace: "ks", Table: "t", Name: "tok", Type: datatype.Varchar},
@@ -875,10 +894,35 @@ func (cn *Conn) sendKind(a *Attempt, out Outcome) {
 		return
 	}
 	msg := BuildMessage(a, out)
-	if !cn.emitIfOpen("BackendReply", "b", cn.ID, "host", cn.N.IP, "bstream", int(a.Header.StreamId), "t", a.Token, "o", out.Kind) {
+	if !cn.emitIfOpen("BackendReply", "b", cn.ID, "host", cn.N.IP, "bstream", int(a.Header.StreamId), "t", a.Token, "o", out.Kind, "h", cn.replyHash(&a.Header, msg, out)) {
 		return
 	}
 	cn.sendFull(&a.Header, msg, out)
+}
+
+// replyHash identifies (flags without COMPRESSED, opcode, uncompressed body) of the frame sendFull will write: what the
+// client must receive, byte for byte.
+func (cn *Conn) replyHash(hdr *frame.Header, msg message.Message, out Outcome) string {
+	frm := frame.NewFrame(hdr.Version, hdr.StreamId, msg)
+	if out.Payload != nil {
+		frm.SetCustomPayload(out.Payload)
+	}
+	if len(out.Warnings) > 0 {
+		frm.SetWarnings(out.Warnings)
+	}
+	if out.Tracing {
+		id := primitive.UUID{1, 2, 3, 4, 5, 6, 7, 8, 9, 10, 11, 12, 13, 14, 15, 16}
+		frm.SetTracingId(&id)
+	}
+	var buf bytes.Buffer
+	if err := frame.NewRawCodec().EncodeFrame(frm, &buf); err != nil || buf.Len() < 9 {
+		return ""
+	}
+	b := buf.Bytes()
+	h := sha256.New()
+	h.Write([]byte{b[1] &^ byte(primitive.HeaderFlagCompressed), b[4]})
+	h.Write(b[9:])
+	return hex.EncodeToString(h.Sum(nil))[:16]
 }
 
 func (cn *Conn) send(hdr *frame.Header, msg message.Message, flags primitive.HeaderFlag, payload map[string][]byte) {
